@@ -21,7 +21,8 @@ Import ListNotations.
 (* ---------- basic vocabulary ---------- *)
 Inductive version := V1 | V2 | V3.
 Inductive force := FNone | FH1 | FH2 | FH3.
-Inductive stack := S1 | S2 | S3.                  (* which dialler builds the tls.Config *)
+Inductive stack := S1 | S2 | S3                   (* which dialler builds the tls.Config *)
+| SP.                                             (* the first hop to an https:// proxy (HTTP/1 dialler, forProxy) *)
 (* failure classes (the harness maps error texts to these) *)
 Inductive errclass :=
 | ECert      (* certificate / client-certificate rejected *)
@@ -64,7 +65,7 @@ Definition default_sname (host : bytes) (c : tlscfg) : tlscfg := if nilb (t_snam
    TLSClientConfig field: then HTTP/3 starts from nil whatever the client holds. *)
 Definition tls_view_gen (shadow : bool) (s : stack) (only_h1 : bool) (host : bytes) (o : option tlscfg) : tlscfg :=
   match s with
-  | S1 => let c := default_sname host (clone_or_empty o) in
+  | S1 | SP => let c := default_sname host (clone_or_empty o) in
           if only_h1 then set_next [] c else c                         (* addTLS *)
   | S2 => let c := clone_or_empty o in                                 (* newTLSConfig *)
           let c := if mem_bytes alpn_h2 (t_next c) then c else set_next (alpn_h2 :: t_next c) c in
@@ -88,7 +89,12 @@ Record server := mkSrv {
   s_sans   : list bytes;   (* names in the certificate *)
   s_needcert : option N    (* Some ca: client certificate issued by ca required *)
 }.
-Record env := mkEnv { e_https : bool; e_host : bytes; e_srv : server }.
+(* a CONNECT proxy the client may be told to use (SetProxyURL): plain (http://) or behind TLS (https://), with
+   its own host name and certificate *)
+Record proxy := mkProxy { p_tls : bool; p_host : bytes; p_ca : N; p_sans : list bytes }.
+Record env := mkEnv { e_https : bool; e_host : bytes; e_srv : server; e_proxy : option proxy }.
+(* the proxy's TLS listener seen as a server: offers http/1.1 only, asks for no client certificate *)
+Definition proxy_srv (px : proxy) : server := mkSrv [alpn_h1] false false false (p_ca px) (p_sans px) None.
 
 (* crypto/tls negotiateALPN (server side): server preference; http/1.1-only clients may talk to an
    h2 server without ALPN; otherwise no overlap = fatal alert *)
@@ -151,32 +157,34 @@ Record client := mkClient {
   c_t3    : t3st;
   c_alt   : altst;           (* pendingAltSvcs / altSvcJar entry for the origin *)
   c_bg    : bool;            (* a handlePendingAltSvc goroutine has been started and has not run yet *)
+  c_route : bool;            (* Options.Proxy = the environment's proxy (SetProxyURL) *)
   c_alti  : bool             (* the HTTP/1 idle list holds the persistConn{alt: t2} that dialConn returned after an
                                 ALPN hand-off (key onlyH1 = false); such an entry is never taken out, a request that
                                 gets it goes through t2.RoundTrip - which may dial *)
 }.
 (* req.C(): transport.go T() + client.go C() *)
 Definition new_client : client :=
-  mkClient (Some (mkTls [] [] [] false default_next_protos)) FNone false false false None None false false false T3None ANone false false.
+  mkClient (Some (mkTls [] [] [] false default_next_protos)) FNone false false false None None false false false T3None ANone false false false.
 
-Definition with_tls o c := mkClient o (c_force c) (c_h3 c) (c_allow_http c) (c_plain_dialtls c) (c_udial c) (c_uhs c) (c_idle c) (c_idle1 c) (c_t2 c) (c_t3 c) (c_alt c) (c_bg c) (c_alti c).
-Definition with_force f c := mkClient (c_tls c) f (c_h3 c) (c_allow_http c) (c_plain_dialtls c) (c_udial c) (c_uhs c) (c_idle c) (c_idle1 c) (c_t2 c) (c_t3 c) (c_alt c) (c_bg c) (c_alti c).
-Definition with_h3 b c := mkClient (c_tls c) (c_force c) b (c_allow_http c) (c_plain_dialtls c) (c_udial c) (c_uhs c) (c_idle c) (c_idle1 c) (c_t2 c) (c_t3 c) (c_alt c) (c_bg c) (c_alti c).
-Definition with_h2c a p c := mkClient (c_tls c) (c_force c) (c_h3 c) a p None (c_uhs c) (c_idle c) (c_idle1 c) (c_t2 c) (c_t3 c) (c_alt c) (c_bg c) (c_alti c).
-Definition with_allow a c := mkClient (c_tls c) (c_force c) (c_h3 c) a (c_plain_dialtls c) (c_udial c) (c_uhs c) (c_idle c) (c_idle1 c) (c_t2 c) (c_t3 c) (c_alt c) (c_bg c) (c_alti c).
+Definition with_tls o c := mkClient o (c_force c) (c_h3 c) (c_allow_http c) (c_plain_dialtls c) (c_udial c) (c_uhs c) (c_idle c) (c_idle1 c) (c_t2 c) (c_t3 c) (c_alt c) (c_bg c) (c_route c) (c_alti c).
+Definition with_force f c := mkClient (c_tls c) f (c_h3 c) (c_allow_http c) (c_plain_dialtls c) (c_udial c) (c_uhs c) (c_idle c) (c_idle1 c) (c_t2 c) (c_t3 c) (c_alt c) (c_bg c) (c_route c) (c_alti c).
+Definition with_h3 b c := mkClient (c_tls c) (c_force c) b (c_allow_http c) (c_plain_dialtls c) (c_udial c) (c_uhs c) (c_idle c) (c_idle1 c) (c_t2 c) (c_t3 c) (c_alt c) (c_bg c) (c_route c) (c_alti c).
+Definition with_h2c a p c := mkClient (c_tls c) (c_force c) (c_h3 c) a p None (c_uhs c) (c_idle c) (c_idle1 c) (c_t2 c) (c_t3 c) (c_alt c) (c_bg c) (c_route c) (c_alti c).
+Definition with_allow a c := mkClient (c_tls c) (c_force c) (c_h3 c) a (c_plain_dialtls c) (c_udial c) (c_uhs c) (c_idle c) (c_idle1 c) (c_t2 c) (c_t3 c) (c_alt c) (c_bg c) (c_route c) (c_alti c).
 (* EnableH2C / DisableH2C.  Pinned code: EnableH2C also installed a plain net.Dial in the DialTLSContext slot
    (which every https connection of the client then used) and DisableH2C cleared the slot; repaired code: only the
    http2 AllowHTTP flag changes, http:// requests are dialled plain by the http2 transport itself *)
 Definition set_h2c (b : bool) (c : client) : client :=
   if h2c_installs_plain_dialtls then with_h2c b b c else with_allow b c.
-Definition with_idle i i1 c := mkClient (c_tls c) (c_force c) (c_h3 c) (c_allow_http c) (c_plain_dialtls c) (c_udial c) (c_uhs c) i i1 (c_t2 c) (c_t3 c) (c_alt c) (c_bg c) (c_alti c).
-Definition with_t2 b c := mkClient (c_tls c) (c_force c) (c_h3 c) (c_allow_http c) (c_plain_dialtls c) (c_udial c) (c_uhs c) (c_idle c) (c_idle1 c) b (c_t3 c) (c_alt c) (c_bg c) (c_alti c).
-Definition with_t3 x c := mkClient (c_tls c) (c_force c) (c_h3 c) (c_allow_http c) (c_plain_dialtls c) (c_udial c) (c_uhs c) (c_idle c) (c_idle1 c) (c_t2 c) x (c_alt c) (c_bg c) (c_alti c).
+Definition with_idle i i1 c := mkClient (c_tls c) (c_force c) (c_h3 c) (c_allow_http c) (c_plain_dialtls c) (c_udial c) (c_uhs c) i i1 (c_t2 c) (c_t3 c) (c_alt c) (c_bg c) (c_route c) (c_alti c).
+Definition with_t2 b c := mkClient (c_tls c) (c_force c) (c_h3 c) (c_allow_http c) (c_plain_dialtls c) (c_udial c) (c_uhs c) (c_idle c) (c_idle1 c) b (c_t3 c) (c_alt c) (c_bg c) (c_route c) (c_alti c).
+Definition with_t3 x c := mkClient (c_tls c) (c_force c) (c_h3 c) (c_allow_http c) (c_plain_dialtls c) (c_udial c) (c_uhs c) (c_idle c) (c_idle1 c) (c_t2 c) x (c_alt c) (c_bg c) (c_route c) (c_alti c).
 (* SetDialTLS(fn) / SetDialTLS(nil): the single DialTLSContext slot (EnableH2C's plain dialler is overwritten) *)
-Definition with_udial o c := mkClient (c_tls c) (c_force c) (c_h3 c) (c_allow_http c) false o (c_uhs c) (c_idle c) (c_idle1 c) (c_t2 c) (c_t3 c) (c_alt c) (c_bg c) (c_alti c).
-Definition with_uhs o c := mkClient (c_tls c) (c_force c) (c_h3 c) (c_allow_http c) (c_plain_dialtls c) (c_udial c) o (c_idle c) (c_idle1 c) (c_t2 c) (c_t3 c) (c_alt c) (c_bg c) (c_alti c).
-Definition with_alti b c := mkClient (c_tls c) (c_force c) (c_h3 c) (c_allow_http c) (c_plain_dialtls c) (c_udial c) (c_uhs c) (c_idle c) (c_idle1 c) (c_t2 c) (c_t3 c) (c_alt c) (c_bg c) b.
-Definition with_alt a bg c := mkClient (c_tls c) (c_force c) (c_h3 c) (c_allow_http c) (c_plain_dialtls c) (c_udial c) (c_uhs c) (c_idle c) (c_idle1 c) (c_t2 c) (c_t3 c) a bg (c_alti c).
+Definition with_udial o c := mkClient (c_tls c) (c_force c) (c_h3 c) (c_allow_http c) false o (c_uhs c) (c_idle c) (c_idle1 c) (c_t2 c) (c_t3 c) (c_alt c) (c_bg c) (c_route c) (c_alti c).
+Definition with_uhs o c := mkClient (c_tls c) (c_force c) (c_h3 c) (c_allow_http c) (c_plain_dialtls c) (c_udial c) o (c_idle c) (c_idle1 c) (c_t2 c) (c_t3 c) (c_alt c) (c_bg c) (c_route c) (c_alti c).
+Definition with_alti b c := mkClient (c_tls c) (c_force c) (c_h3 c) (c_allow_http c) (c_plain_dialtls c) (c_udial c) (c_uhs c) (c_idle c) (c_idle1 c) (c_t2 c) (c_t3 c) (c_alt c) (c_bg c) (c_route c) b.
+Definition with_route b c := mkClient (c_tls c) (c_force c) (c_h3 c) (c_allow_http c) (c_plain_dialtls c) (c_udial c) (c_uhs c) (c_idle c) (c_idle1 c) (c_t2 c) (c_t3 c) (c_alt c) (c_bg c) b (c_alti c).
+Definition with_alt a bg c := mkClient (c_tls c) (c_force c) (c_h3 c) (c_allow_http c) (c_plain_dialtls c) (c_udial c) (c_uhs c) (c_idle c) (c_idle1 c) (c_t2 c) (c_t3 c) a bg (c_route c) (c_alti c).
 
 (* ---------- configuration operations ---------- *)
 (* client.go GetTLSClientConfig: allocate {NextProtos: h2, http/1.1} when the pointer is nil *)
@@ -194,7 +202,8 @@ Inductive forkact :=
 | FkForce (f : force)
 | FkH2C (b : bool)
 | FkDialTLS (o : option tlscfg)
-| FkHandshake (o : option tlscfg).
+| FkHandshake (o : option tlscfg)
+| FkProxy (b : bool).
 
 Inductive op :=
 | OSetTLS (o : option tlscfg)   (* SetTLSClientConfig(conf) *)
@@ -207,6 +216,9 @@ Inductive op :=
 | OH2C (b : bool)               (* EnableH2C / DisableH2C *)
 | ODialTLS (o : option tlscfg)  (* SetDialTLS(fn doing its own TLS with this configuration) / SetDialTLS(nil) *)
 | OHandshake (o : option tlscfg) (* SetTLSHandshake(fn running crypto/tls with this configuration) / (nil) *)
+| OProxy (b : bool)             (* SetProxyURL(the environment's proxy) / SetProxy(nil), followed by
+                                   CloseIdleConnections (idle connections are keyed by the proxy: those made on
+                                   the other route would merely be out of reach) *)
 | OClone                        (* Clone(): go on with the clone *)
 | OCloseIdle                    (* Transport.CloseIdleConnections *)
 | OBg                           (* the pending handlePendingAltSvc goroutine (if any) runs now *)
@@ -295,7 +307,7 @@ Definition rt_h2_dial (e : env) (c : client) : res :=
     end.
 
 (* getConn + dialConn + the request on the connection obtained *)
-Definition rt_conn (e : env) (c : client) : res :=
+Definition rt_conn_direct (e : env) (c : client) : res :=
   let only_h1 := match c_force c with FH1 => true | _ => false end in     (* connectMethodForRequest *)
   if negb only_h1 && e_https e && c_alti c then
     (* the idle list hands out the persistConn{alt: t2} of an earlier hand-off: t2.RoundTrip - a cached HTTP/2
@@ -318,6 +330,52 @@ Definition rt_conn (e : env) (c : client) : res :=
                                                        written to an HTTP/2 server *)
         else (Use V2, [mk_dial S1 cfg h], with_alti true (with_t2 true c))   (* t2.AddConn, alt = t2 *)
       else (Use V1, [mk_dial S1 cfg h], idle c)
+  end.
+
+(* the same through a CONNECT proxy (https:// target): the idle list is keyed by proxy AND target (connectMethod.key
+   drops the target only for plain-http targets), so a tunnel is reused for its own authority only; a new one =
+   first hop (plain TCP, or TLS with the PROXY's name under the client's settings - through DialTLSContext when the
+   caller set one), CONNECT target, then the handshake with the ORIGIN inside the tunnel: its name is the target's
+   (cm.tlsHost), its configuration the client's (or the TLSHandshakeContext hook's; DialTLSContext is not consulted
+   for it), and the ALPN hand-off as on a direct connection *)
+Definition rt_conn_proxy (px : proxy) (e : env) (c : client) : res :=
+  let only_h1 := match c_force c with FH1 => true | _ => false end in
+  if negb only_h1 && c_alti c then
+    if c_t2 c then (Use V2, [], c) else rt_h2_dial e c
+  else
+  if (if only_h1 then c_idle1 c else c_idle c) then (Use V1, [], c) else
+  let idle c' := if only_h1 then with_idle (c_idle c') true c' else with_idle true (c_idle1 c') c' in
+  let pcfg := match c_udial c with
+              | Some t => default_sname (p_host px) t
+              | None => tls_view SP only_h1 (p_host px) (c_tls c)
+              end in
+  let hp := if p_tls px then handshake (s_alpn (proxy_srv px)) pcfg (proxy_srv px) else HsOk None in
+  let pd := if p_tls px then [mk_dial SP pcfg hp] else [] in
+  match hp with
+  | HsFail er => (Fail er, pd, c)
+  | HsOk _ =>
+    let cfg := match c_uhs c with
+               | Some t => default_sname (e_host e) t
+               | None => tls_view S1 only_h1 (e_host e) (c_tls c)
+               end in
+    let h := handshake (s_alpn (e_srv e)) cfg (e_srv e) in
+    match h with
+    | HsFail er => (Fail er, pd ++ [mk_dial S1 cfg h], c)
+    | HsOk p =>
+        if opt_bytes_eqb p (Some alpn_h2) then
+          if only_h1 then (Fail EProto, pd ++ [mk_dial S1 cfg h], c)
+          else (Use V2, pd ++ [mk_dial S1 cfg h], with_alti true (with_t2 true c))
+        else (Use V1, pd ++ [mk_dial S1 cfg h], idle c)
+    end
+  end.
+
+Definition route (e : env) (c : client) : option proxy :=
+  if c_route c && e_https e then e_proxy e else None.   (* plain-http targets through a proxy are not modelled *)
+
+Definition rt_conn (e : env) (c : client) : res :=
+  match route e c with
+  | Some px => rt_conn_proxy px e c
+  | None => rt_conn_direct e c
   end.
 
 (* Transport.checkAltSvc; None = nothing applicable, go on *)
@@ -379,6 +437,8 @@ Definition clear_idle (c : client) : client :=
   | FH1 => with_idle (c_idle c) false c
   | _ => with_idle false (c_idle1 c) c
   end.
+Definition last_stack (ds : list dial) : option stack :=
+  match rev ds with [] => None | d :: _ => Some (d_stack d) end.
 Definition own_h2_conn (e : env) (c : client) : outcome * list dial :=
   let '(o, ds, _) := rt_h2_dial e (with_t2 false c) in (o, ds).
 Definition round_trip_close (guard : bool) (e : env) (c : client) : res :=
@@ -386,16 +446,16 @@ Definition round_trip_close (guard : bool) (e : env) (c : client) : res :=
   | FH2 => let '(o, ds) := own_h2_conn e c in (o, ds, c)
   | _ =>
     let '(o, ds, c1) := round_trip_gen guard e c in
-    match o, ds with
-    | Use V2, [] => (o, ds, with_t2 false c1)
-    | Use V2, d :: _ =>
-        match d_stack d with
-        | S1 => let '(o2, ds2) := own_h2_conn e c1 in (o2, ds ++ ds2, c1)   (* hand-off, then the own connection *)
-        | _ => (o, ds, with_t2 false c1)   (* dialled by the http2 transport itself (alt entry of the idle list): that
-                                              IS the own, single-use connection *)
+    match o with
+    | Use V2 =>
+        match last_stack ds with
+        | Some S1 => let '(o2, ds2) := own_h2_conn e c1 in (o2, ds ++ ds2, c1)   (* hand-off (direct or through a
+                                            tunnel), then the own connection *)
+        | _ => (o, ds, with_t2 false c1)   (* a cached connection, used up; or dialled by the http2 transport itself
+                                              (alt entry of the idle list): that IS the own, single-use connection *)
         end
-    | Use V1, _ => (o, ds, clear_idle c1)
-    | _, _ => (o, ds, c1)
+    | Use V1 => (o, ds, clear_idle c1)
+    | _ => (o, ds, c1)
     end
   end.
 Definition do_req_close_gen (guard : bool) (e : env) (c : client) : res := after_response e (round_trip_close guard e c).
@@ -428,7 +488,7 @@ Definition do_bg (e : env) (c : client) : list dial * client :=
 (* Transport.Clone (+ Options.Clone): configuration copied, connection state fresh *)
 Definition do_clone (c : client) : client :=
   mkClient (c_tls c) (c_force c) (c_h3 c) (clone_copies_allow_http && c_allow_http c) (c_plain_dialtls c)
-           (c_udial c) (c_uhs c) false false false T3None ANone false false.
+           (c_udial c) (c_uhs c) false false false T3None ANone false (c_route c) false.
 
 (* Alt-Svc bookkeeping as the hook VerifAltSvcState reports it *)
 Inductive altobs := AOff | AObsNone | AObsPending | AObsReady | AObsJar.
@@ -453,6 +513,7 @@ Definition fork_apply (a : forkact) (c : client) : client :=
   | FkH2C b => set_h2c b c
   | FkDialTLS o => with_udial o c
   | FkHandshake o => with_uhs o c
+  | FkProxy b => with_route b c
   end.
 
 Definition step_gen (guard : bool) (e : env) (c : client) (o : op) : obs * client :=
@@ -468,6 +529,7 @@ Definition step_gen (guard : bool) (e : env) (c : client) (o : op) : obs * clien
   | OH2C b => (ObsCfg, set_h2c b c)
   | ODialTLS o => (ObsCfg, with_udial o c)
   | OHandshake o => (ObsCfg, with_uhs o c)
+  | OProxy b => (ObsCfg, with_route b (with_alti false (with_idle false false (with_t2 false (if closeidle_closes_h3 then with_t3 T3None c else c)))))
   | OClone => (ObsCfg, do_clone c)
   | OCloseIdle => (ObsCfg, with_alti false (with_idle false false (with_t2 false (if closeidle_closes_h3 then with_t3 T3None c else c))))
   | OBg => let '(ds, c') := do_bg e c in (ObsBg ds (alt_obs c'), c')
